@@ -88,6 +88,9 @@ CHECKS = {
     "C43": ("mc-sdk", E1, "exhaustive product enumeration (E1) of boundary integers x decimals and crafted Decimals against exact big-integer rescaling",
             "All eight conversion functions over boundary u64/u128/i128 values x decimals 0..60 and beyond, and Decimal->integer over crafted (mantissa, scale, decimals): supported inputs round-trip exactly, other forward conversions only truncate, Decimal->integer is exact or an error, nothing panics.",
             "alphabets only; rounding of user decimals with excess fraction digits is by design and only counted", "§5 C43"),
+    "C41": ("mc-utils", E1, "exhaustive enumeration (E1) of all short sequences of instruction groups x limits x flags against label bookkeeping and real serialization",
+            "Every sequence of up to 3 (thorough 4) parallel groups from 9 shapes x instruction limits x size limits x payer-change flag x lookup table: after add+optimize the labelled instructions are neither dropped, duplicated nor reordered, atomic groups unsplit, merges only between mergeable groups, payer rule kept, limits respected and the size estimate is not below the bincode size of the built transaction.",
+            "shapes and limits listed in the evidence", "§5 C41"),
 }
 
 NOT_YET = "no check built yet in this round (planned in DESIGN.md); not claimed"
